@@ -108,14 +108,17 @@ type RowSpec struct {
 }
 
 type TableSpec struct {
-	Name    string    `json:"name"`
-	PKName  string    `json:"pk"`
-	GeomCol string    `json:"geomcol"`
-	GeomPos int       `json:"geompos"` // position of the geometry column among the attribute columns (0 = right after the pk)
-	GType   string    `json:"gtype"`
-	SRS     int       `json:"srs"`
-	Cols    []ColSpec `json:"cols"`
-	Rows    []RowSpec `json:"rows"`
+	Name    string `json:"name"`
+	PKName  string `json:"pk"`
+	GeomCol string `json:"geomcol"`
+	GeomPos int    `json:"geompos"` // position of the geometry column among the attribute columns (0 = right after the pk)
+	GType   string `json:"gtype"`
+	// GTypeCase: how the source spells the type name in gpkg_geometry_columns ("" = upper case as the standard lists them, "lower", "title":
+	// files from other writers are spelled like that and the tool reads the name without regard to case)
+	GTypeCase string    `json:"gtypecase,omitempty"`
+	SRS       int       `json:"srs"`
+	Cols      []ColSpec `json:"cols"`
+	Rows      []RowSpec `json:"rows"`
 }
 
 var rdSRS = gogpkg.SpatialReferenceSystem{Name: "Amersfoort / RD New", ID: 28992, Organization: "EPSG", OrganizationCoordsysID: 28992,
@@ -198,6 +201,16 @@ func writeSource(path string, tables []TableSpec) error {
 		}
 		if err := h.AddGeometryTable(gogpkg.TableDescription{Name: t.Name, ShortName: t.Name, Description: t.Name, GeometryField: t.GeomCol, GeometryType: t.gtype(), SRS: int32(t.SRS), Z: gogpkg.Prohibited, M: gogpkg.Prohibited}); err != nil {
 			return err
+		}
+		if t.GTypeCase != "" {
+			spelled := strings.ToLower(t.GType)
+			if t.GTypeCase == "title" {
+				spelled = strings.ToUpper(spelled[:1]) + spelled[1:]
+				spelled = strings.NewReplacer("point", "Point", "linestring", "LineString", "polygon", "Polygon", "collection", "Collection").Replace(spelled)
+			}
+			if _, err := h.Exec(`UPDATE gpkg_geometry_columns SET geometry_type_name = ? WHERE table_name = ?`, spelled, t.Name); err != nil {
+				return err
+			}
 		}
 		names := []string{t.PKName}
 		for _, c := range t.Cols {
@@ -427,7 +440,7 @@ func compareTable(rt readTable, t TableSpec, want []expectedRow, src *readTable)
 			}
 		}
 	}
-	if rt.GeomCol != t.GeomCol || rt.GType != t.GType || rt.SRSID != t.SRS {
+	if rt.GeomCol != t.GeomCol || !strings.EqualFold(rt.GType, t.GType) || rt.SRSID != t.SRS { // (type names compare without regard to case)
 		return fmt.Sprintf("table %s: geometry column %s type %s srs %d, source has %s %s %d", t.Name, rt.GeomCol, rt.GType, rt.SRSID, t.GeomCol, t.GType, t.SRS)
 	}
 	if src != nil {
@@ -467,6 +480,7 @@ func drawTableSkeleton(t *rapid.T, idx int, gtypes []string) TableSpec {
 		ts.Cols = append(ts.Cols, ColSpec{Name: fmt.Sprintf("c%d_%s", i, identGen.Draw(t, "col")), Type: rapid.SampledFrom([]string{"INTEGER", "REAL", "TEXT", "INTEGER", "REAL", "TEXT", "DATETIME"}).Draw(t, "ctype"), NotNull: rapid.IntRange(0, 3).Draw(t, "notnull") == 0})
 	}
 	ts.GeomPos = rapid.IntRange(0, nc).Draw(t, "geompos")
+	ts.GTypeCase = rapid.SampledFrom([]string{"", "", "", "", "", "", "", "lower", "title"}).Draw(t, "gtypeCase")
 	return ts
 }
 
@@ -483,8 +497,9 @@ func drawVals(t *rapid.T, cols []ColSpec) []any {
 			vals[i] = rapid.SampledFrom([]float64{0, 1.5, -2.25, 1e-9, 12345.678, 3}).Draw(t, "real") + float64(rapid.IntRange(0, 1000).Draw(t, "r2"))/8
 		case "DATETIME": // instants with milli-, micro- and nanosecond digits
 			frac := rapid.SampledFrom([]string{"", ".5", ".123", ".123456", ".999999999", ".000001"}).Draw(t, "frac")
-			vals[i] = fmt.Sprintf("20%02d-%02d-%02dT%02d:%02d:%02d%sZ", rapid.IntRange(0, 40).Draw(t, "yy"), rapid.IntRange(1, 12).Draw(t, "mo"), rapid.IntRange(1, 28).Draw(t, "dd"),
-				rapid.IntRange(0, 23).Draw(t, "hh"), rapid.IntRange(0, 59).Draw(t, "mi"), rapid.IntRange(0, 59).Draw(t, "ss"), frac)
+			zone := rapid.SampledFrom([]string{"Z", "Z", "Z", "+02:00", "-05:30", "+00:00", "+13:45"}).Draw(t, "zone") // local times with an offset denote instants too
+			vals[i] = fmt.Sprintf("20%02d-%02d-%02dT%02d:%02d:%02d%s%s", rapid.IntRange(0, 40).Draw(t, "yy"), rapid.IntRange(1, 12).Draw(t, "mo"), rapid.IntRange(1, 28).Draw(t, "dd"),
+				rapid.IntRange(0, 23).Draw(t, "hh"), rapid.IntRange(0, 59).Draw(t, "mi"), rapid.IntRange(0, 59).Draw(t, "ss"), frac, zone)
 		default:
 			vals[i] = rapid.StringMatching(`[a-zA-Z0-9 ,.'"%_-]{0,12}`).Draw(t, "text")
 		}
